@@ -61,9 +61,22 @@ func (a *AvahiProvider) Start(autoReconnect bool, cb api.MdnsResolveCB) bool {
 	a.mux.Lock()
 	defer a.mux.Unlock()
 
+	a.manualShutdown = false
+
+	return a.start(autoReconnect, cb)
+}
+
+// connect to the avahi daemon and start browsing, unless the provider was shut down
+//
+// a.mux has to be locked
+func (a *AvahiProvider) start(autoReconnect bool, cb api.MdnsResolveCB) bool {
+	// a shutdown that happened while waiting for the daemon to come back has to stay in effect
+	if a.manualShutdown {
+		return false
+	}
+
 	a.autoReconnect = autoReconnect
 	a.resolveCB = cb
-	a.manualShutdown = false
 
 	err := a.avServer.Setup(a.avahiCallback)
 	if err != nil {
@@ -256,7 +269,10 @@ func (a *AvahiProvider) attemptReconnect(cb api.MdnsResolveCB, serviceData *mdns
 
 		<-time.After(time.Second)
 
-		if !a.Start(true, cb) {
+		a.mux.Lock()
+		started := a.start(true, cb)
+		a.mux.Unlock()
+		if !started {
 			continue
 		}
 
